@@ -53,6 +53,8 @@ type spec struct {
 	Steps  int      `json:"steps,omitempty"`
 	Tran   string   `json:"tran,omitempty"`
 	Yield  bool     `json:"yield,omitempty"`
+	Peer   string   `json:"peer,omitempty"`  // endpoints: held (hand-made peers keeping their SP header back) | sock (mangos sockets)
+	Conns  int      `json:"conns,omitempty"` // endpoints: connections over the Socks endpoints
 }
 
 func TestC13(t *testing.T) {
@@ -85,6 +87,26 @@ func TestC13(t *testing.T) {
 		sp := spec{Kind: "closerace", Socks: 1, Protos: []string{protoNames[i%len(protoNames)]}, Sides: []string{[]string{"listen", "dial"}[(i/len(protoNames))%2]}, Yield: rnd.Intn(2) == 0}
 		cases = append(cases, mon.CaseSpec{Name: "closerace/" + sp.Protos[0], Spec: sp})
 	}
+	// one socket with several dialers / listeners whose connections are in the SP header exchange at the
+	// same time, the peers answering one by one (appended last: the indices of the older cases stay put)
+	for i := 0; i < r.Pick(96, 4800); i++ {
+		k := 2 + rnd.Intn(4)
+		sp := spec{Kind: "endpoints", Peer: "held", Tran: heldTrans[i%len(heldTrans)], Sides: []string{[]string{"dial", "listen"}[(i/len(heldTrans))%2]},
+			Protos: []string{multiProtos[rnd.Intn(len(multiProtos))]}, Socks: k, Conns: k, Steps: rnd.Intn(3), Yield: rnd.Intn(2) == 0}
+		if sp.Sides[0] == "listen" {
+			sp.Conns += rnd.Intn(3)
+		}
+		cases = append(cases, mon.CaseSpec{Name: "endpoints/held/" + sp.Tran + "/" + sp.Sides[0], Spec: sp})
+	}
+	for i := 0; i < r.Pick(48, 2400); i++ {
+		k := 2 + rnd.Intn(4)
+		sp := spec{Kind: "endpoints", Peer: "sock", Tran: reals[i%len(reals)], Sides: []string{[]string{"dial", "listen"}[(i/len(reals))%2]},
+			Protos: []string{multiProtos[rnd.Intn(len(multiProtos))]}, Socks: k, Conns: k, Yield: rnd.Intn(2) == 0}
+		if sp.Sides[0] == "listen" {
+			sp.Conns += rnd.Intn(3)
+		}
+		cases = append(cases, mon.CaseSpec{Name: "endpoints/sock/" + sp.Tran + "/" + sp.Sides[0], Spec: sp})
+	}
 	r.Run(cases, func(c *mon.Case) {
 		sp := c.Spec.(spec)
 		if sp.Yield {
@@ -102,6 +124,12 @@ func TestC13(t *testing.T) {
 			runWSHandler(c, sp)
 		case "closerace":
 			runCloseRace(c, sp)
+		case "endpoints":
+			if sp.Peer == "held" {
+				runEndpointsHeld(c, sp)
+			} else {
+				runEndpointsSock(c, sp)
+			}
 		}
 	})
 }
